@@ -307,6 +307,25 @@ def gen_themed(rng, theme):
             ops.append(("call", "validate", ("slot", "D0"), ("slot", "S0") if rng.random() < 0.7 else ("text", PFX + SHAPES["expression"]), None, {"advanced": rng.random() < 0.5}, None))
             ops += maybe_fail() if rng.random() < 0.3 else []
         ops.append(plain())
+    elif theme == "imports":
+        # documents that owl:import one another, loaded with do_owl_imports: what one call imported must not be
+        # remembered by the next (a document that was an importer before is imported again)
+        ops.append(("write", "vocab.ttl", PFX + "ex:P a rdfs:Class . ex:Q a rdfs:Class ; rdfs:subClassOf ex:P ."))
+        ops.append(("write", "common.ttl", PFX + "<{DIR}/common.ttl> a owl:Ontology ; owl:imports <{DIR}/vocab.ttl> .\n"
+                    "ex:CommonShape a sh:NodeShape ; sh:targetClass ex:P ; sh:property [ sh:path ex:n ; sh:maxInclusive 9 ] ."))
+        ops.append(("write", "other.ttl", PFX + "<{DIR}/other.ttl> a owl:Ontology ; owl:imports <{DIR}/common.ttl> .\n"
+                    "ex:OtherShape a sh:NodeShape ; sh:targetClass ex:P ; sh:property [ sh:path ex:tag ; sh:maxCount 1 ] ."))
+        project = PFX + "<urn:project> a owl:Ontology ; owl:imports <{DIR}/%s> .\nex:ProjShape a sh:NodeShape ; sh:targetClass ex:P ; sh:property [ sh:path ex:flag ; sh:minCount 1 ] ."
+        imp = {"do_owl_imports": True}
+        calls = [("call", "validate", ("slot", "D0"), ("path", "common.ttl"), None, dict(imp), None),
+                 ("call", "validate", ("slot", "D0"), ("text", project % "common.ttl"), None, dict(imp), None),
+                 ("call", "validate", ("slot", "D0"), ("path", "other.ttl"), None, dict(imp), None),
+                 ("call", "validate", ("slot", "D0"), ("text", project % "other.ttl"), None, dict(imp), None),
+                 ("call", "validate", ("slot", "D0"), ("text", project % "common.ttl"), None, {}, None)]
+        for _ in range(rng.choice([2, 3, 4])):
+            ops.append(rng.choice(calls))
+            ops += maybe_fail() if rng.random() < 0.25 else []
+        ops.append(rng.choice(calls[:4]))
     elif theme == "globals":
         # after a failure: literals read from text, and a query naming a function nobody declared in this call
         ops += failing_call(rng)
@@ -319,7 +338,7 @@ def gen_themed(rng, theme):
     return ops
 
 
-THEMES = ["stale_data", "stale_shapes", "stale_validator", "reuse", "globals", "modes", "mixed", "mixed"]
+THEMES = ["stale_data", "stale_shapes", "stale_validator", "reuse", "globals", "modes", "imports", "mixed", "mixed"]
 
 
 def gen_history(seed, index):
@@ -471,8 +490,12 @@ def edit_shapes(g, what, k):
             replace(s, SH.hasValue, Literal(k % 9))
 
 
-def resolve(slots, arg):
-    return slots[arg[1]] if arg[0] == "slot" else arg[1]
+def resolve(slots, arg, outdir=None):
+    if arg[0] == "slot":
+        return slots[arg[1]]
+    if arg[0] == "path":
+        return os.path.join(outdir, arg[1])          # a document written by an earlier ("write", name, text) op
+    return arg[1].replace("{DIR}", "file://" + outdir) if outdir else arg[1]
 
 
 def run_history(seed, index, outdir):
@@ -497,6 +520,9 @@ def run_history(seed, index, outdir):
             if id(g) in addresses:
                 reused += 1
             slots[name] = g
+        elif op[0] == "write":
+            with open(os.path.join(outdir, op[1]), "w") as fh:
+                fh.write(op[2].replace("{DIR}", "file://" + outdir))
         elif op[0] == "drop":
             if op[1] in slots:
                 addresses[id(slots[op[1]])] = True
@@ -508,8 +534,8 @@ def run_history(seed, index, outdir):
             edit_shapes(slots["S0"], op[1], op[2])
         elif op[0] == "call":
             _, api, data, shapes, ont, opts, point = op
-            spec = {"api": api, "data": resolve(slots, data), "data_format": "turtle" if data[0] == "text" else None,
-                    "shapes": resolve(slots, shapes), "shapes_format": "turtle" if shapes[0] == "text" else None,
+            spec = {"api": api, "data": resolve(slots, data, outdir), "data_format": "turtle" if data[0] == "text" else None,
+                    "shapes": resolve(slots, shapes, outdir), "shapes_format": "turtle" if shapes[0] == "text" else None,
                     "ont": ont, "options": opts}
             with open(os.path.join(outdir, "call_%d.pkl" % ncall), "wb") as fh:
                 pickle.dump({"spec": spec, "injected": point}, fh)
